@@ -27,13 +27,20 @@ structure Cfg where
   formatBypassesType : Bool := true
   /-- object_validator.go:226-229: members "$schema" and "id" are never "additional" -/
   ignoresSchemaIdKeys : Bool := true
+  /-- schema_props.go:163,209,264: IMPORTANT!-tagged messages of failed anyOf/oneOf branches are kept
+      even when the composition as a whole succeeds -/
+  leaksImportant : Bool := true
   deriving DecidableEq, Repr
 
-def Cfg.asIs : Cfg := {}
+/-- the code as it is now. `enumSkipsNil` and `addlItemsBound` were repaired by `fix:` commits
+    (known_findings.json); their switches stay in the model for the witness theorems. -/
+def Cfg.asIs : Cfg := { enumSkipsNil := false, addlItemsBound := false }
+/-- the pinned snapshot before any `fix:` commit -/
+def Cfg.original : Cfg := {}
 def Cfg.repaired : Cfg :=
   { nullSkipsComposition := false, enumSkipsNil := false, addlItemsBound := false,
     requiredByDefault := false, floatTolerance := false, formatBypassesType := false,
-    ignoresSchemaIdKeys := false }
+    ignoresSchemaIdKeys := false, leaksImportant := false }
 
 /-- `SchemaValidatorOptions` that change outcomes (recycling flags do not: C04). -/
 structure Opts where
@@ -87,7 +94,8 @@ def eRefInHeader (path header ref : String) : Msg := ⟨422, path, "IMPORTANT!re
 def eInvalidObject (path : String) : Msg := ⟨422, path, "invalidObject"⟩
 
 def isImportant (m : Msg) : Bool := m.tag.startsWith "IMPORTANT!"
-def stripImportant (m : Msg) : Msg := { m with tag := (m.tag.drop 10).toString }
+/-- result.go:378-380: a new plain error (no code) carrying the text without the tag -/
+def stripImportant (m : Msg) : Msg := { m with code := 0, tag := (m.tag.drop 10).toString }
 
 /-- helpers.go:101-113 sErr: a result holding just this error -/
 def sErr (e : Msg) : Res := { errors := [e] }
@@ -215,8 +223,11 @@ def sliceValidate (cfg : Cfg) (b : SBase) (k : IKids) (path : String) (xs : List
       let r := if itemsSize > 0 && b.addItems == .bool false then r2.addErrors [some eNoAddlItems] else r2
       match b.addItems, k.addItemsS with
       | .schema, some f =>
-        let hi := if cfg.addlItemsBound then size - itemsSize + 1 else size
-        addlLoop f path xs (hi - itemsSize) itemsSize r
+        if cfg.addlItemsBound then
+          -- the pinned snapshot: no tuple guard, upper bound size-itemsSize+1
+          addlLoop f path xs (size - itemsSize + 1 - itemsSize) itemsSize r
+        else if itemsSize > 0 then addlLoop f path xs (size - itemsSize) itemsSize r
+        else r
       | _, _ => r
     else r2
   let r4 := if ltOpt size b.minItems then r3.addErrors [some (eMinItems path)] else r3
@@ -227,26 +238,28 @@ def sliceValidate (cfg : Cfg) (b : SBase) (k : IKids) (path : String) (xs : List
 /-! ### schemaProps validator (schema_props.go:101-317) -/
 
 /-- result.go:382-416 keepRelevantErrors -/
-def keepRelevant (r : Res) : Res :=
-  { errors := (r.errors.filter isImportant).map stripImportant
-    warnings := (r.warnings.filter isImportant).map stripImportant }
+def keepRelevant (cfg : Cfg) (r : Res) : Res :=
+  if cfg.leaksImportant then
+    { errors := (r.errors.filter isImportant).map stripImportant
+      warnings := (r.warnings.filter isImportant).map stripImportant }
+  else {}
 
 def mcOf : Option Res → Int
   | some r => r.mc | none => 0
 
 /-- schema_props.go:153-193; returns (mainResult, keepResultAnyOf) -/
-def anyOfLoop (path : String) (v : JVal) : List V → Option Res → Res → Res → Res × Res
+def anyOfLoop (cfg : Cfg) (path : String) (v : JVal) : List V → Option Res → Res → Res → Res × Res
   | [], best, main, keep => ((main.addErrors [some (eAnyOf path)]).merge [best], keep)
   | f :: fs, best, main, keep =>
     let result := f path v
-    let keep := keep.mergeOne (keepRelevant result)
+    let keep := keep.mergeOne (keepRelevant cfg result)
     let main := absorb main result
     if result.errors.isEmpty then (main.mergeOne result, {})
-    else if best.isNone || result.mc > mcOf best then anyOfLoop path v fs (some result) main keep
-    else anyOfLoop path v fs best main keep
+    else if best.isNone || result.mc > mcOf best then anyOfLoop cfg path v fs (some result) main keep
+    else anyOfLoop cfg path v fs best main keep
 
 /-- schema_props.go:195-252 -/
-def oneOfLoop (path : String) (v : JVal) : List V → Option Res → Option Res → Nat → Res → Res → Res × Res
+def oneOfLoop (cfg : Cfg) (path : String) (v : JVal) : List V → Option Res → Option Res → Nat → Res → Res → Res × Res
   | [], first, best, n, main, keep =>
     match n with
     | 0 => ((main.addErrors [some (eOneOf path "Found none valid")]).merge [best], keep)
@@ -254,24 +267,24 @@ def oneOfLoop (path : String) (v : JVal) : List V → Option Res → Option Res 
     | _ => ((main.addErrors [some (eOneOf path s!"Found {n} valid alternatives")]).merge [best], keep)
   | f :: fs, first, best, n, main, keep =>
     let result := f path v
-    let keep := keep.mergeOne (keepRelevant result)
+    let keep := keep.mergeOne (keepRelevant cfg result)
     let main := absorb main result
     if result.errors.isEmpty then
-      oneOfLoop path v fs (if first.isNone then some result else first) best (n + 1) main {}
+      oneOfLoop cfg path v fs (if first.isNone then some result else first) best (n + 1) main {}
     else if n == 0 && (best.isNone || result.mc > mcOf best) then
-      oneOfLoop path v fs first (some result) n main keep
-    else oneOfLoop path v fs first best n main keep
+      oneOfLoop cfg path v fs first (some result) n main keep
+    else oneOfLoop cfg path v fs first best n main keep
 
 /-- schema_props.go:254-278 -/
-def allOfLoop (path : String) (v : JVal) (total : Nat) : List V → Nat → Res → Res → Res × Res
+def allOfLoop (cfg : Cfg) (path : String) (v : JVal) (total : Nat) : List V → Nat → Res → Res → Res × Res
   | [], n, main, keep =>
     if n == 0 then (main.addErrors [some (eAllOf path ". None validated")], keep)
     else if n == total then (main, keep)
     else (main.addErrors [some (eAllOf path "")], keep)
   | f :: fs, n, main, keep =>
     let result := f path v
-    let keep := keep.mergeOne (keepRelevant result)
-    allOfLoop path v total fs (if result.errors.isEmpty then n + 1 else n) (main.mergeOne result) keep
+    let keep := keep.mergeOne (keepRelevant cfg result)
+    allOfLoop cfg path v total fs (if result.errors.isEmpty then n + 1 else n) (main.mergeOne result) keep
 
 /-- schema_props.go:294-317: range over the instance's members -/
 def depsLoop (b : SBase) (k : IKids) (path : String) (v : JVal) (kvs : List (String × JVal)) :
@@ -287,17 +300,17 @@ def depsLoop (b : SBase) (k : IKids) (path : String) (v : JVal) (kvs : List (Str
           (main.addErrors (ds.map fun d => if ahas d kvs then none else some (eDependency path d)))
       | none => depsLoop b k path v kvs rest main
 
-def schemaPropsValidate (b : SBase) (k : IKids) (path : String) (v : JVal) : Res :=
+def schemaPropsValidate (cfg : Cfg) (b : SBase) (k : IKids) (path : String) (v : JVal) : Res :=
   let main : Res := {}
   let (main, keepAny) :=
     if k.anyOf.isEmpty then (main, (none : Option Res))
-    else let (m, kp) := anyOfLoop path v k.anyOf none main {}; (m, some kp)
+    else let (m, kp) := anyOfLoop cfg path v k.anyOf none main {}; (m, some kp)
   let (main, keepOne) :=
     if k.oneOf.isEmpty then (main, (none : Option Res))
-    else let (m, kp) := oneOfLoop path v k.oneOf none none 0 main {}; (m, some kp)
+    else let (m, kp) := oneOfLoop cfg path v k.oneOf none none 0 main {}; (m, some kp)
   let (main, keepAll) :=
     if k.allOf.isEmpty then (main, (none : Option Res))
-    else let (m, kp) := allOfLoop path v k.allOf.length k.allOf 0 main {}; (m, some kp)
+    else let (m, kp) := allOfLoop cfg path v k.allOf.length k.allOf 0 main {}; (m, some kp)
   let main := match k.not with
     | some f =>
       let result := f path v
@@ -452,7 +465,7 @@ def nodeValidate (cfg : Cfg) (opts : Opts) (O : Oracles) (b : SBase) (defaults :
   else
     let r : Res := {}
     let r := step (typeApplies b) (some (typeValidate cfg O b path v)) r
-    let r := step true (some (schemaPropsValidate b k path v)) r
+    let r := step true (some (schemaPropsValidate cfg b k path v)) r
     let r := match v with
       | .str s => step true (stringValidate O b path s) r
       | _ => r
